@@ -128,6 +128,8 @@ pub enum Op {
     TDelta { t: Tgt, d: Vec<DOp> },
     AIns { t: Tgt, i: usize, v: Val },
     AInsRange { t: Tgt, i: usize, vs: Vec<AnyV> },
+    /// one call inserting a mixed run of JSON-like values and shared types (C API: yarray_insert_range)
+    AInsMixed { t: Tgt, i: usize, vs: Vec<Val> },
     APush { t: Tgt, v: Val },
     APushFront { t: Tgt, v: Val },
     ADel { t: Tgt, i: usize, n: usize },
@@ -159,6 +161,7 @@ impl Op {
             | Op::TDelta { t, .. }
             | Op::AIns { t, .. }
             | Op::AInsRange { t, .. }
+            | Op::AInsMixed { t, .. }
             | Op::APush { t, .. }
             | Op::APushFront { t, .. }
             | Op::ADel { t, .. }
@@ -372,6 +375,32 @@ pub fn apply_real(
         Op::AInsRange { i, vs, .. } => {
             let Out::YArray(a) = tgt else { return Err("not array".into()) };
             a.insert_range(txn, *i as u32, vs.iter().map(|v| v.to_any()).collect::<Vec<_>>());
+        }
+        Op::AInsMixed { i, vs, .. } => {
+            let Out::YArray(a) = tgt else { return Err("not array".into()) };
+            // consecutive JSON-like values go in as one range, shared types one by one
+            let mut j = *i as u32;
+            let mut k = 0;
+            while k < vs.len() {
+                let mut run: Vec<Any> = Vec::new();
+                while k < vs.len() {
+                    if let Val::Any(x) = &vs[k] {
+                        run.push(x.to_any());
+                        k += 1;
+                    } else {
+                        break;
+                    }
+                }
+                if !run.is_empty() {
+                    let n = run.len() as u32;
+                    a.insert_range(txn, j, run);
+                    j += n;
+                } else {
+                    a.insert(txn, j, vs[k].to_in());
+                    j += 1;
+                    k += 1;
+                }
+            }
         }
         Op::APush { v, .. } => {
             let Out::YArray(a) = tgt else { return Err("not array".into()) };
@@ -650,6 +679,10 @@ pub fn apply_model(m: &mut Model, op: &Op) -> Result<(), String> {
         Op::AInsRange { i, vs, .. } => {
             let Node::Array(a) = n else { return Err("not array".into()) };
             a.splice(*i..*i, vs.iter().map(|v| Node::Any(v.clone())));
+        }
+        Op::AInsMixed { i, vs, .. } => {
+            let Node::Array(a) = n else { return Err("not array".into()) };
+            a.splice(*i..*i, vs.iter().map(|v| v.to_node()));
         }
         Op::APush { v, .. } => {
             let Node::Array(a) = n else { return Err("not array".into()) };
